@@ -3,6 +3,8 @@ package props
 
 import (
 	"fmt"
+
+	goat "github.com/avos-io/goat"
 	"math/rand"
 	"runtime"
 	"strings"
@@ -141,4 +143,38 @@ func tierN(tier string, quick, thorough int) int {
 		return thorough
 	}
 	return quick
+}
+
+// guarded runs a library call that must return promptly in its own goroutine, so that a call
+// which never returns becomes a verdict (final state reached with the call pending) instead of
+// hanging the case driver.
+func guarded(tier string, res *core.Result, what string, f func()) bool {
+	done := make(chan struct{})
+	go func() { f(); close(done) }()
+	st, snap := settle(tier, func() bool {
+		select {
+		case <-done:
+			return true
+		default:
+			return false
+		}
+	})
+	switch st {
+	case "ok":
+		return true
+	case "stuck":
+		res.ViolateD("library-call-never-returns/"+what, map[string]any{"goat_goroutines": goatParked(snap)}, "%s has not returned in a final state", what)
+	default:
+		if res.Verdict == core.Held {
+			res.Verdict, res.Note = core.Inconclusive, "watchdog in "+what
+		}
+	}
+	return false
+}
+
+// readErrSet reports, without ever blocking, whether the client connection has recorded a
+// transport read error (false while the multiplexer's mutex is held by someone else).
+func readErrSet(cc *goat.ClientConn) bool {
+	err, ok := goat.VerifClientReadErrTry(cc)
+	return ok && err != nil
 }
